@@ -61,6 +61,7 @@ type c12Plan struct {
 	FCValue uint64 `json:"fc_value,omitempty"`
 	FCPay   bool   `json:"fc_pay,omitempty"`
 	FCGas   uint64 `json:"fc_gas,omitempty"`
+	FC2     bool   `json:"fc2,omitempty"` // CREATE2 instead of CREATE
 	// SS (stake-opcode plans): "stake" | "unstake" | "unstakeall" executed by a miner-controlling contract
 	// that the root calls by STATICCALL (or, SSPlain, by CALL as a control)
 	SS      string `json:"ss,omitempty"`
@@ -83,7 +84,7 @@ func (c12) Budget(tier string) runner.Budget {
 
 func (c12) Describe() runner.Description {
 	return runner.Description{
-		Rule:        "call-tree plans (85%): a seeded tree of 2..14 frames (depth <=5), each a deployed contract with effects (SSTORE of a per-frame slot, LOG1, 1-wei transfer to a sink, CREATE of a 1-byte contract), children called by CALL / CALLCODE / DELEGATECALL / STATICCALL with full or limited gas, and an ending (RETURN, REVERT, INVALID, infinite loop, stack fault); the root gas limit is ample or starved at a seeded point. Every successful frame returns the bitmap of frames of its subtree whose effects must persist; the transaction runs through the real block executor. Oracle: final storage of every frame slot, the ordered receipt logs, sink and contract balances, contract nonces and the set of created accounts equal exactly the effects of the frames in the returned bitmap (failed frames and their subtrees contribute nothing); no frame inside a STATICCALL subtree that has effects may report success and nothing from such a subtree may persist; a failed root leaves the whole state as before except fee/nonce of the sender. Failed-creation plans (8%): a contract runs an inner CREATE whose init code stores, logs and optionally pays out of its endowment and then ends by returning 1 byte / 200000 bytes (code deposit unpayable at the lower gas limits) / 250000 bytes (over the size limit) / REVERT / INVALID; the creator records what CREATE pushed; if it reported failure no account, storage, balance or log of the creation frame may remain and the endowment is back with the creator. Stake-opcode plans (5%): a contract that is the account of a registered miner executes the node's STAKE / UNSTAKE / UNSTAKEALL opcode inside a STATICCALL (25%: plain CALL as control); its balance and the miner record must be unchanged afterwards; or a contract AUTHs itself with an externally owned account's signature and AUTHCALLs a sink with value inside a STATICCALL: the account's nonce and the sink's balance must be unchanged. Cross-transaction plans (15%): 2-4 identical-shaped transactions in one block, each TLOADs a slot, records it, TSTOREs, touches storage and logs: every transaction must read transient storage empty, pay the same gas (no warm access list inherited), and its receipt must carry exactly its own log; in half of them the transactions only warm ADDRESSES (account-access opcodes, an inner CREATE, a deployment transaction) and every probe transaction not first in the block must use exactly the gas it uses alone in a block on the same parent state. distinct_nontrivial = distinct tree shapes (kinds, endings, effects, gas shares) with at least one failing inner frame.",
+		Rule:        "call-tree plans (85%): a seeded tree of 2..14 frames (depth <=5), each a deployed contract with effects (SSTORE of a per-frame slot, LOG1, 1-wei transfer to a sink, CREATE of a 1-byte contract), children called by CALL / CALLCODE / DELEGATECALL / STATICCALL with full or limited gas, and an ending (RETURN, REVERT, INVALID, infinite loop, stack fault); the root gas limit is ample or starved at a seeded point. Every successful frame returns the bitmap of frames of its subtree whose effects must persist; the transaction runs through the real block executor. Oracle: final storage of every frame slot, the ordered receipt logs, sink and contract balances, contract nonces and the set of created accounts equal exactly the effects of the frames in the returned bitmap (failed frames and their subtrees contribute nothing); no frame inside a STATICCALL subtree that has effects may report success and nothing from such a subtree may persist; a failed root leaves the whole state as before except fee/nonce of the sender. Failed-creation plans (8%): a contract runs an inner CREATE (40%: CREATE2) whose init code stores, logs and optionally pays out of its endowment and then ends by returning 1 byte / 200000 bytes (code deposit unpayable at the lower gas limits) / 250000 bytes (over the size limit) / REVERT / INVALID; the creator records what CREATE pushed; if it reported failure no account, storage, balance or log of the creation frame may remain and the endowment is back with the creator. Stake-opcode plans (5%): a contract that is the account of a registered miner executes the node's STAKE / UNSTAKE / UNSTAKEALL opcode inside a STATICCALL (25%: plain CALL as control); its balance and the miner record must be unchanged afterwards; or a contract AUTHs itself with an externally owned account's signature and AUTHCALLs a sink with value inside a STATICCALL: the account's nonce and the sink's balance must be unchanged. Cross-transaction plans (15%): 2-4 identical-shaped transactions in one block, each TLOADs a slot, records it, TSTOREs, touches storage and logs: every transaction must read transient storage empty, pay the same gas (no warm access list inherited), and its receipt must carry exactly its own log; in half of them the transactions only warm ADDRESSES (account-access opcodes, an inner CREATE, a deployment transaction) and every probe transaction not first in the block must use exactly the gas it uses alone in a block on the same parent state. distinct_nontrivial = distinct tree shapes (kinds, endings, effects, gas shares) with at least one failing inner frame.",
 		Assumptions: []string{"frame effects use per-frame slots/topics so that every observed value is attributable to one frame", "SELFDESTRUCT only as the ending of a CALL-kind frame (its own contract), beneficiary a sink account"},
 		Real:        []string{"vm (EVM call/create/static handling, interpreter, gas)", "executor contract executor", "core/vmexecutor (Prepare, snapshot/revert, receipts)", "storage/account (journal, access list, transient storage, logs)"},
 		Stub:        []string{"ConsensusHelper", "network"},
@@ -105,6 +106,7 @@ func (c12) Gen(seed uint64, tier string) json.RawMessage {
 		p.FCValue = uint64(r.Intn(3))
 		p.FCPay = p.FCValue > 0 && r.Chance(0.5)
 		p.FCGas = []uint64{60000000, 60000000, 30000000, 12000000}[r.Intn(4)]
+		p.FC2 = r.Chance(0.4)
 		b, _ := json.Marshal(p)
 		return b
 	}
@@ -842,7 +844,11 @@ func c12FailedCreate(p *c12Plan, ec *execChain, st *simrt.Stats, log *simrt.Log)
 		copy(chunk, init[off:])
 		f.PushBytes(chunk).Push(uint64(0x80 + off)).Op(evmasm.MSTORE)
 	}
-	f.Push(uint64(len(init))).Push(0x80).Push(p.FCValue).Op(evmasm.CREATE)
+	if p.FC2 {
+		f.Push(0x5a17).Push(uint64(len(init))).Push(0x80).Push(p.FCValue).Op(evmasm.CREATE2)
+	} else {
+		f.Push(uint64(len(init))).Push(0x80).Push(p.FCValue).Op(evmasm.CREATE)
+	}
 	f.Push(1).Op(evmasm.SSTORE)
 	f.Log1(0xF00D, 1).Op(evmasm.STOP)
 	faddr := c12Addr(600)
@@ -861,8 +867,17 @@ func c12FailedCreate(p *c12Plan, ec *execChain, st *simrt.Stats, log *simrt.Log)
 	ec.root = root
 	pre := ec.state()
 	created := createAddress(faddr, pre.GetNonce(faddr))
+	if p.FC2 {
+		buf := append([]byte{0xff}, faddr.Bytes()...)
+		buf = append(buf, common.BigToHash(big.NewInt(0x5a17)).Bytes()...)
+		buf = append(buf, model.Keccak(init)...)
+		created = common.BytesToAddress(model.Keccak(buf)[12:])
+	}
 	sinkBefore := pre.GetBalance(c12Sink)
 	st.Fault("inner_create_" + p.FC)
+	if p.FC2 {
+		st.Probe("inner_create2")
+	}
 	tx := node.TxSpec{K: "call", From: 0, To: faddr.GetHexString(), Gas: p.FCGas, Salt: fmt.Sprintf("c12fc-%d", p.Seed)}.Build()
 	receipts, _, _, _ := ec.execBlock(ec.height+1, []*types.Transaction{tx}, true)
 	if len(receipts) != 1 {
